@@ -688,55 +688,19 @@ theorem assignLoop_no_panic (m : Mode) (rest : List Dev) :
 
 /-! ### the i64 offset -/
 
-theorem offsetI64_wrapping (rx now : Nat) (h1 : rx < U64) (h2 : now < U64) :
-    offsetI64 .wrapping rx now = .ok ((now + U64 - rx) % U64) := by
+/-- The offset is master time minus receive time as a two's-complement 64-bit value, in every
+    build mode, for every pair of 64-bit values. -/
+theorem offsetI64_value (m : Mode) (rx now : Nat) (h1 : rx < U64) (h2 : now < U64) :
+    offsetI64 m rx now = .ok ((now + U64 - rx) % U64) := by
   have hU : U64 = 18446744073709551616 := rfl
   simp only [hU] at *
   unfold offsetI64 toI64
   by_cases a : rx < 9223372036854775808 <;> by_cases b : now < 9223372036854775808 <;>
-    by_cases c : (rx : Int) - 18446744073709551616 = -9223372036854775808 <;>
-    simp [a, b, c] <;> omega
+    simp [a, b] <;> omega
 
-/-- The `i64` computation does not overflow: `rx as i64 ≠ i64::MIN` (negation) and the sum is in range. -/
-def OffsetFits (rx now : Nat) : Prop :=
-  toI64 rx ≠ -9223372036854775808 ∧
-  -9223372036854775808 ≤ -toI64 rx + toI64 now ∧ -toI64 rx + toI64 now ≤ 9223372036854775807
-
-theorem offsetI64_checked (rx now : Nat) (h1 : rx < U64) (h2 : now < U64) (hf : OffsetFits rx now) :
-    offsetI64 .checked rx now = .ok ((now + U64 - rx) % U64) := by
-  have hU : U64 = 18446744073709551616 := rfl
-  simp only [hU] at *
-  unfold OffsetFits toI64 at hf
-  unfold offsetI64 toI64
-  by_cases a : rx < 9223372036854775808 <;> by_cases b : now < 9223372036854775808 <;>
-    simp [a, b] at hf ⊢ <;>
-    (repeat (first | rw [if_neg (by omega)] | rw [if_pos (by omega)])) <;> (congr 1; omega)
-
-theorem offsetI64_checked_panics (rx now : Nat) (h1 : rx < U64) (h2 : now < U64) (hf : ¬ OffsetFits rx now) :
-    ∃ w, offsetI64 .checked rx now = .panic w := by
-  have hU : U64 = 18446744073709551616 := rfl
-  simp only [hU] at *
-  unfold OffsetFits toI64 at hf
-  unfold offsetI64 toI64
-  by_cases a : rx < 9223372036854775808 <;> by_cases b : now < 9223372036854775808 <;>
-    by_cases c : (rx : Int) - 18446744073709551616 = -9223372036854775808 <;>
-    simp [a, b, c] at hf ⊢ <;>
-    first
-    | (exfalso; omega)
-    | exact ⟨_, rfl⟩
-    | (rw [if_pos (by omega)]; exact ⟨_, rfl⟩)
-
-/-- Whenever the offset computation returns, in either build mode, it returns master time minus
-    receive time as a two's-complement 64-bit value. -/
 theorem offsetI64_ok_value (m : Mode) (rx now v : Nat) (h1 : rx < U64) (h2 : now < U64)
     (h : offsetI64 m rx now = .ok v) : v = (now + U64 - rx) % U64 := by
-  cases m with
-  | wrapping => rw [offsetI64_wrapping rx now h1 h2] at h; cases h; rfl
-  | checked =>
-    by_cases hf : OffsetFits rx now
-    · rw [offsetI64_checked rx now h1 h2 hf] at h; cases h; rfl
-    · rcases offsetI64_checked_panics rx now h1 h2 hf with ⟨w, hw⟩
-      rw [hw] at h; cases h
+  rw [offsetI64_value m rx now h1 h2] at h; cases h; rfl
 
 /-! ### the write loop -/
 
